@@ -19,21 +19,28 @@ abstraction relies on is the call-level contract Core D proves for the real ring
 (`Properties/C15.lean`); it is stated below (`RingA.*` and the lemmas in
 `Proofs/Lifecycle.lean`, section "ring contract").
 
-The code is modelled as it is (after the repairs recorded in known_findings.json): the receiver
-asks for a whole read block (`defaultReadBlockSize`) of free space before every socket read, and
-only a socket read arms the read deadline — so a packet longer than `cap - rblock` that arrives in
-small pieces parks receiver and processor for good (defect F3, `ChunkWedge`).
+The code is modelled as it is (after the repairs recorded in known_findings.json): before every
+socket read the receiver waits only while the incoming ring is completely FULL
+(`waitForWriteSpace(1)`), then reads at most the free space (and at most one read block,
+`defaultReadBlockSize`) — repair 8f682d1, finding F3.  Only a socket read arms the read deadline, so
+a read (and with it the keep-alive deadline and the notice of the peer's close) is pending whenever
+the incoming ring is not full.  Before the repair the receiver asked for a whole read block of free
+space before every socket read: a packet longer than `cap - rblock` that arrived in small pieces
+parked receiver and processor for good (`Cfg.blockWait`, `ChunkWedge`).  What is left is a receiver
+parked because the incoming ring is completely full behind a processor that is itself parked (finding
+F8: no read pending, no deadline armed).
 
 When `ReadFrom` ends with an error (it always does: keep-alive deadline, reset, EOF, ring closed)
 the receiver closes the socket before it returns (repair b77088f, finding F7): a sender blocked in
 `conn.Write` fails, its deferred `Close` closes the outgoing ring, and a processor parked in
 `WriteWait` on the connection's OWN outgoing ring comes back with end-of-stream.
 
-Three switches reproduce the behaviour before a repair for the closed counterexamples of
+Four switches reproduce the behaviour before a repair for the closed counterexamples of
 `Properties/C16.lean`: `Cfg.d2` (a ring wait loop woken by `Close` returns end-of-stream with its
 mutex still locked — defect D2/F2), `Cfg.stopProg` (the statement order of `stop()`, e.g. with the
-old final "clear in/out" step — defect F1 — or with `wgStopped.Wait` before the `Close` calls) and
-`Cfg.recvCloses` (false: the receiver before b77088f, which returned without closing the socket — F7).
+old final "clear in/out" step — defect F1 — or with `wgStopped.Wait` before the `Close` calls),
+`Cfg.recvCloses` (false: the receiver before b77088f, which returned without closing the socket — F7)
+and `Cfg.blockWait` (true: `ReadFrom` before 8f682d1, which waited for a whole read block — F3).
 -/
 namespace Mqtt.Model.Lifecycle
 
@@ -62,12 +69,17 @@ def StopOp.code : StopOp → Nat
 
 structure Cfg where
   cap : Nat                    -- ring size (both rings)
-  rblock : Nat                 -- defaultReadBlockSize: the receiver reserves this much before a socket read
+  rblock : Nat                 -- defaultReadBlockSize: the receiver takes at most this much per socket read
   wblock : Nat                 -- defaultWriteBlockSize: the sender peeks at most this much
   d2 : Bool := false           -- OLD ring (before 584775d): wait loops return EOF holding their mutex
   stopProg : List StopOp := stopProgram
   recvCloses : Bool := true    -- false = OLD receiver (before b77088f): returns without conn.Close()
+  blockWait : Bool := false    -- true = OLD ReadFrom (before 8f682d1): waits for `rblock` free bytes before every read
 deriving Repr
+
+/-- what `ReadFrom` asks `waitForWriteSpace` for before a socket read: one byte (it waits only while
+the ring is completely full); a whole read block before 8f682d1 -/
+def Cfg.spaceNeed (c : Cfg) : Nat := if c.blockWait then c.rblock else 1
 
 /-! ## The ring at call level -/
 
@@ -166,7 +178,7 @@ deriving DecidableEq, Repr
 /-- receiver: `svc.in.ReadFrom(conn)` in a loop (`defer bf.Close()` inside `ReadFrom`), on its error
 `conn.Close()` and return, `defer wgStopped.Done()` -/
 inductive RPc where
-  | space                     -- isDone test + waitForWriteSpace(defaultReadBlockSize)
+  | space                     -- isDone test + waitForWriteSpace(1): waits only while the incoming ring is FULL
   | read                      -- r.Read (arms the read deadline)
   | commit (n : Nat)          -- WriteCommit(n)
   | close                     -- ReadFrom's deferred in.Close()
@@ -273,10 +285,16 @@ def kstep (c : Cfg) (sh : Sh) (me : Tid) : KPc → Option (Sh × KPc)
       | some (sh', true) => some (sh', .run (i + 1))
       | some (sh', false) => some (sh', .finished)
 
-/-- receiver; `k` is the size of the piece the socket read returns (clamped to 1 … min rblock wire) -/
+/-- the slice `ReadFrom` hands to the socket read: the free space of the incoming ring, at most one
+read block (the real slice also ends at the end of the ring: one more reason for a short piece, and
+the piece is the schedule's choice anyway); a whole read block before 8f682d1 -/
+def readMax (c : Cfg) (sh : Sh) : Nat :=
+  if c.blockWait then c.rblock else min c.rblock (c.cap - sh.inR.buf)
+
+/-- receiver; `k` is the size of the piece the socket read returns (clamped to 1 … min readMax wire) -/
 def rstep (c : Cfg) (sh : Sh) (k : Nat) : RPc → Option (Sh × RPc)
   | .space =>
-    match sh.inR.waitSpace c c.rblock with
+    match sh.inR.waitSpace c c.spaceNeed with
     | none => none
     | some (.ok, r) => some ({ sh with inR := r }, .read)
     | some (_, r) => some ({ sh with inR := r }, .close)
@@ -284,7 +302,7 @@ def rstep (c : Cfg) (sh : Sh) (k : Nat) : RPc → Option (Sh × RPc)
     if sh.sock ≠ .open ∨ sh.timeout = true then some (sh, .close)
     else if sh.wire = 0 then none
     else
-      let n := max 1 (min k (min c.rblock sh.wire))
+      let n := max 1 (min k (min (readMax c sh) sh.wire))
       some ({ sh with wire := sh.wire - n }, .commit n)
   | .commit n =>
     match sh.inR.commitP c n with
@@ -522,8 +540,11 @@ def HeldBySelf (s : St) : Bool :=
 that is still open and has stopped reading -/
 def HeldUp (s : St) : Bool := HeldByThird s
 
-/-- defect F3: the receiver waits for a read block of free space, the processor for the rest of
-a packet that does not fit beside a read block; neither reads the socket -/
+/-- the wedge of defect F3 (repaired by 8f682d1): the receiver waits for a read block of free space,
+the processor for the rest of a packet that does not fit beside a read block; neither reads the
+socket.  Kept ONLY as the name of that state for the closed counterexample with the old `ReadFrom`
+(`Cfg.blockWait := true`, `C16_old_readfrom_wedges`); with the repaired one the receiver waits only
+while the ring is completely full, and no theorem about the code mentions this predicate. -/
 def ChunkWedge (c : Cfg) (s : St) : Bool :=
   s.recv == .space && s.proc == .msg && !s.sh.inR.done && decide (c.cap < s.sh.inR.buf + c.rblock) &&
   (match s.sh.stream with
